@@ -29,7 +29,9 @@ MODEL_NEEDS_IMPL = True
 THEOREMS = ['C03_unify_gen_restores', 'C03_unify_gen_close_restores', 'C03_unify_gen_exhaust_restores',
             'C03_unify_gen_yields_at_most_once', 'C03_unify_gen_matches_unify', 'C03_frame_next_restores',
             'C03_throw_restores', 'C03_query_restores', 'C03_rerun_same', 'C03_consumer_throw_restores', 'C03_any_consumer_restores',
-            'C03_compiled_query_restores', 'C03_bounded_consumer_restores', 'C03_machine_refines_irsem', 'C03_machine_refines_irsem_fuel', 'C03_machine_refines_facts', 'C03_queryF_nofacts']
+            'C03_compiled_query_restores', 'C03_bounded_consumer_restores', 'C03_machine_refines_irsem', 'C03_machine_refines_irsem_fuel', 'C03_machine_refines_facts', 'C03_queryF_nofacts',
+            'C03_machine_refines_nquery', 'C03_machine_refines_nquery_fuel', 'C03_world_query_restores', 'C03_pyrows_realizes', 'C03_raising_predicate_realized',
+            'C03_machine_exception_passthrough', 'C03_machine_refines_nqueryE']
 RULE = ("kind 'gen': non-trivial if the generator bound >= 2 cells or ran under >= 1 stacked unification, and the "
         "operation sequence abandons it at a yield (close/del after a yielding next) or resumes it. "
         "kind 'sched': non-trivial if some generator is started later than directly after its creation and >= 2 cells get bound. "
@@ -155,7 +157,9 @@ def _fact_nvars(args):
 def _model_prog(case, io):
     if not isinstance(io, dict) or case.get('reclimit') or io.get('steps', 10 ** 9) > MODEL_STEPS:
         return None
-    if io['refend'].startswith('raised') or io['spec'] is None:
+    if io['spec'] is None:
+        return None
+    if io['refend'].startswith('raised') and not (case.get('pyend') and io['refend'] == 'raised:Boom'):
         return None
     db = {}
     for name, args in case['dyn']:
@@ -163,9 +167,10 @@ def _model_prog(case, io):
     gdb = g_list(['(%s, %s, %s)' % (terms.g_str(n), g_nat(ar), g_list(fs)) for (n, ar), fs in db.items()])
     stk = g_list([g_pair(g_term(a), g_term(b)) for a, b in case['stack']])
     name, qargs = case['query']
-    return '(run_machine %s %s %s %s %s %s %s %s %s %s)' % (
+    return '(run_machine %s %s %s %s %s %s %s %s %s %s %s)' % (
         g_nat(MODEL_FUEL), g_nat(MODEL_DEPTH), _s_program(LIBAST + case['clauses']), gdb, stk, terms.g_str(name),
-        g_list([g_term(a) for a in qargs]), g_nat(case['nvars']), g_nat(MAXANS), g_nat(io['k']))
+        g_list([g_term(a) for a in qargs]), g_nat(case['nvars']), g_nat(MAXANS), g_nat(io['k']),
+        'true' if case.get('pyend') else 'false')
 
 def model_expr(case, io=None):
     if case['kind'] == 'sched':
@@ -441,7 +446,10 @@ MODES = ['exhaust', 'close', 'close', 'del', 'del', 'consumer_raise', 'throw', '
 
 def _gen_prog_case(rng):
     mode = rng.choice(MODES)
-    PPY[0] = 0.3 if mode == 'pyraise' else 0.04
+    # pyend: the Python predicate pyp raises after its last row, in EVERY run (also the reference run): the exhaustive run then
+    # ends by that exception after the answers produced so far - compared with the frame machine (machine_refines_nquery)
+    pyend = rng.random() < 0.15
+    PPY[0] = 0.3 if (mode == 'pyraise' or pyend) else 0.04
     clauses = []
     preds = []
     dyn = []
@@ -492,7 +500,7 @@ def _gen_prog_case(rng):
             stack.append([['v', i], up(t)])
     return {'kind': 'prog', 'clauses': clauses, 'dyn': dyn, 'query': [name, qargs], 'nvars': nv, 'stack': stack,
             'mode': mode, 'k': rng.choice([0, 1, 1, 2, 2, 3, 5]), 'j': rng.choice([1, 1, 2, 3, 4]),
-            'reclimit': rng.choice([0, 0, 0, 0, 60, 90, 130]) if not mode.startswith('bounded') else 0}
+            'reclimit': rng.choice([0, 0, 0, 0, 60, 90, 130]) if not mode.startswith('bounded') else 0, 'pyend': pyend}
 
 def _src(case):
     from props import c03_ref
@@ -526,6 +534,8 @@ def _impl_prog(case):
         for v in (yp.atom('a'), yp.atom('c')):
             for _ in E.unify(x, v):
                 yield False
+        if case.get('pyend'):
+            raise _Boom('pyp-end')       # the predicate raises after its last row (RefineNative.pyrows rows true)
     yp.register_function('pyp', pyp)
     steps = [0]
     orig_query = yp.query
@@ -704,10 +714,10 @@ def _impl_prog(case):
     from props import c03_ref
     show = lambda ts: _canon(ts, nv)
     try:
-        spec = list(c03_ref.answers(LIBAST + case['clauses'], case['dyn'], case['stack'], case['query'], nv, None, MAXANS, show))
+        spec = list(c03_ref.answers(LIBAST + case['clauses'], case['dyn'], case['stack'], case['query'], nv, None, MAXANS, show, bool(case.get('pyend'))))
         spec1 = None
         if case['mode'] == 'pyraise':
-            spec1 = list(c03_ref.answers(LIBAST + case['clauses'], case['dyn'], case['stack'], case['query'], nv, case['j'], MAXANS, show))
+            spec1 = list(c03_ref.answers(LIBAST + case['clauses'], case['dyn'], case['stack'], case['query'], nv, case['j'], MAXANS, show, bool(case.get('pyend'))))
     except c03_ref.Cyclic:
         spec, spec1 = None, None
     return {'ref': ref, 'refend': refend, 'refnb': refnb, 'refvals': refvals, 'steps': refsteps, 'bad0': bad0, 'k': k, 'spec': spec, 'spec1': spec1, 'heldbad': heldbad[0],
@@ -953,7 +963,7 @@ def oracle(case, io):
         return 'an exception thrown into the query generator did not come back'
     if case['mode'] == 'exhaust' and not case.get('reclimit') and io['run1'] != [ref, io['refend']]:
         return 'second exhaustive run differs from the first'
-    if io['spec'] is not None and not io['refend'].startswith('raised'):
+    if io['spec'] is not None and (not io['refend'].startswith('raised') or (case.get('pyend') and io['refend'] == 'raised:Boom')):
         sa, se = io['spec']
         if [ref, io['refend']] != [sa, se]:
             n = min(len(ref), len(sa))
@@ -1092,4 +1102,7 @@ def distribution(cases, obs):
             inc(d['prog_end'], o['run1'][1])
             inc(d['prog_answers'], min(len(o['ref']), 10))
             inc(d['prog_maxbound'], min(o['maxbound'], 10))
+            if c.get('pyend'):
+                # the Python predicate raises after its last row: how the exhaustive (reference) run ended
+                inc(d.setdefault('prog_pyend_refend', {}), o['refend'])
     return d
